@@ -8,22 +8,31 @@ T = os.environ.get("SEEDED_REPO", "/tmp/wt/clean")
 only = sys.argv[1:]
 res = {}
 out = os.path.join(VERIF, "seeded", "REGRESSION.json")
-if os.path.exists(out) and only:
-    res = json.load(open(out))
+if os.path.exists(out):
+    res = {k: v for k, v in json.load(open(out)).items() if v.get("status") == "caught"}      # resume
 for d in sorted(glob.glob(os.path.join(VERIF, "seeded", "C*"))):
     sid = os.path.basename(d)
     prop = sid.split("-")[0]
     if only and sid not in only and prop not in only:
         continue
+    if sid in res:
+        continue
+    try:
+        checks = json.load(open(os.path.join(d, "meta.json"))).get("caught_by") or [prop]
+    except Exception:
+        checks = [prop]
     subprocess.run("git -C %s checkout -q -- . && git -C %s checkout -q --detach main" % (T, T), shell=True)
     if subprocess.run(["git", "-C", T, "apply", os.path.join(d, "patch.diff")], capture_output=True).returncode != 0:
         res[sid] = {"status": "patch no longer applies (the code it touches was changed by a later fix)"}
         continue
     t0 = time.time()
     try:
-        r = subprocess.run("VERIF_REPO=%s ./check %s --tier quick" % (T, prop), shell=True, cwd=VERIF, capture_output=True, timeout=3600)
-        keys = [l.split("key=")[1].split()[0] for l in r.stdout.decode(errors="replace").splitlines() if l.startswith("VIOLATION") and "key=" in l]
-        res[sid] = {"status": "caught" if r.returncode == 1 else "NOT caught (exit %d)" % r.returncode, "keys": keys[:4], "wall_s": round(time.time() - t0)}
+        for chk in checks:
+            r = subprocess.run("VERIF_REPO=%s ./check %s --tier quick" % (T, chk), shell=True, cwd=VERIF, capture_output=True, timeout=3600)
+            keys = [l.split("key=")[1].split()[0] for l in r.stdout.decode(errors="replace").splitlines() if l.startswith("VIOLATION") and "key=" in l]
+            res[sid] = {"status": "caught" if r.returncode == 1 else "NOT caught (exit %d)" % r.returncode, "by": chk, "keys": keys[:4], "wall_s": round(time.time() - t0)}
+            if r.returncode == 1:
+                break
     except subprocess.TimeoutExpired:
         res[sid] = {"status": "timeout"}
     subprocess.run("git -C %s checkout -q -- ." % T, shell=True)
